@@ -418,6 +418,8 @@ pub enum TSt {
     Sweep { s: Scheme, ts: u64, to: usize },
     /// real clock, real sleep: generate, wait 30 ms, verify with 5 ms (reject) and 10 s (accept)
     FreeRunning { s: Scheme },
+    /// real clock with its sub-millisecond part: a proof whose true age is provably below the timeout must verify
+    RealClockWithin { s: Scheme, timeout_ms: u64 },
 }
 
 #[derive(Clone, Debug, PartialEq)]
@@ -488,6 +490,9 @@ impl<C: Suite> Model for M10T<C> {
                 }
             }
             v.push(TSt::FreeRunning { s });
+            for timeout_ms in [2u64, 5] {
+                v.push(TSt::RealClockWithin { s, timeout_ms });
+            }
         }
         v
     }
@@ -545,6 +550,7 @@ impl<C: Suite> Model for M10T<C> {
             ),
             TSt::Sweep { s, ts, to } => format!("{} {} real clock: proof with timestamp {} verified with timeout {:?} must return", C::G, s.name(), ts, TIMEOUT[*to]),
             TSt::FreeRunning { s } => format!("{} {} real clock, real 30 ms sleep: timeout 5 ms rejects, timeout 10 s accepts", C::G, s.name()),
+            TSt::RealClockWithin { s, timeout_ms } => format!("{} {} real clock (a sample): generated late in a millisecond, verified early in the millisecond {} ms later - the time between the two instants is below the timeout, so the proof must verify", C::G, s.name(), timeout_ms),
         }
     }
     fn required_outcomes(&self) -> Vec<String> {
@@ -660,6 +666,51 @@ impl<C: Suite> Model for M10T<C> {
                 if let Ok(r) = &vr {
                     // an altered timestamp never verifies, whatever the timeout
                     o.expect(&format!("C10:timestamp-sound:{}:{}:sweep", g, s.name()), r.is_err(), "rejected", "accepted");
+                }
+            }
+            TSt::RealClockWithin { s, timeout_ms } => {
+                use std::time::{SystemTime, UNIX_EPOCH};
+                let ls = lib_scheme(*s);
+                let pmsg = if *s == Scheme::Aug { prefixed_msg(&pk, &self.msg) } else { self.msg.clone() };
+                let sig = self.sk.sign(ls, &self.msg).unwrap();
+                let now_ns = || SystemTime::now().duration_since(UNIX_EPOCH).unwrap().as_nanos();
+                let (mut accepted, mut judged_rejections, mut open) = (0, 0, 0);
+                for _attempt in 0..12 {
+                    // start in the middle of a millisecond: the proof's clock read then falls late in that millisecond
+                    loop {
+                        let f = now_ns() % 1_000_000;
+                        if (400_000..550_000).contains(&f) {
+                            break;
+                        }
+                        std::hint::spin_loop();
+                    }
+                    let t_before = now_ns();
+                    let Ok(Ok(p)) = guard(|| ProofOfKnowledgeTimestamp::<C>::generate(&pmsg, sig)) else {
+                        o.expect(&format!("C10:real-clock-generate:{}", g), false, "Ok", "failed");
+                        return;
+                    };
+                    // verify right at the start of the millisecond in which the whole-millisecond age reaches the timeout
+                    while (now_ns() / 1_000_000) as u64 - p.timestamp < *timeout_ms {
+                        std::hint::spin_loop();
+                    }
+                    let r = guard(|| p.verify(pk, &pmsg, Some(*timeout_ms)));
+                    let t_after = now_ns();
+                    o.calls(2);
+                    if matches!(r, Ok(Ok(()))) {
+                        accepted += 1;
+                    } else if t_after - t_before < (*timeout_ms as u128) * 1_000_000 {
+                        // rejected, and less than `timeout` passed between a moment BEFORE the proof was stamped and a
+                        // moment AFTER the verdict: the true age was below the timeout whatever the rounding
+                        judged_rejections += 1;
+                        o.expect(&format!("C10:verifies-within-timeout:{}:{}:real-clock-sub-millisecond", g, s.name()), false, "accept (true age below the timeout)", &format!("{} after at most {} ns", verdict(&r), t_after - t_before));
+                    } else {
+                        // rejected at an age that may have exceeded the timeout (scheduling delay): not judged
+                        open += 1;
+                    }
+                }
+                o.outcome(if accepted > 0 { "real-clock-within:accepted" } else { "real-clock-within:never-accepted" });
+                if judged_rejections == 0 && accepted == 0 {
+                    o.note(format!("{} attempts ended in a rejection at an age that may have exceeded the timeout; nothing judged", open));
                 }
             }
             TSt::FreeRunning { s } => {
